@@ -391,5 +391,80 @@ theorem ftrlRun_is_update_fold [Transc α] (m : α) (r32 : α → α) (hp : Ftrl
     · simp only [ftrlRun, List.foldl_cons] at heq ⊢
       rw [heq]; rfl
 
+/-! ### the glue: `Option` model in, guard, caller's loop -/
+
+/-- on guarded batches the caller's loop succeeds, returns one model per batch, and its last model is
+the step folded over the history from the incoming model (`None` = the empty map) -/
+theorem nbFitHistory_ok {σ : Type} (step : σ → Batch α → σ) (e : σ) (p : Nat)
+    (hist : List (Batch α)) (hg : ∀ b ∈ hist, nbGuard p b = true) :
+    ∀ model : Option σ, ∃ sts, nbFitHistory step e p model hist = some sts ∧
+      sts.length = hist.length ∧
+      sts.getLastD (model.getD e) = hist.foldl step (model.getD e) := by
+  induction hist with
+  | nil => intro model; exact ⟨[], rfl, rfl, rfl⟩
+  | cons b rest ih =>
+    intro model
+    have hb : nbGuard p b = true := hg b List.mem_cons_self
+    obtain ⟨sts, h1, h2, h3⟩ := ih (fun b' hb' => hg b' (List.mem_cons_of_mem _ hb'))
+      (some (step (model.getD e) b))
+    refine ⟨step (model.getD e) b :: sts, ?_, by simp [h2], ?_⟩
+    · simp [nbFitHistory, nbFitWith, hb, h1]
+    · simp only [Option.getD_some] at h3
+      simp only [List.foldl_cons, ← h3]
+      cases sts with
+      | nil => rfl
+      | cons x xs => simp [List.getLastD]
+
+/-- a batch that fails the guard makes the loop return the error -/
+theorem nbFitHistory_err {σ : Type} (step : σ → Batch α → σ) (e : σ) (p : Nat)
+    (hist : List (Batch α)) (hg : ∃ b ∈ hist, nbGuard p b = false) :
+    ∀ model : Option σ, nbFitHistory step e p model hist = none := by
+  induction hist with
+  | nil => obtain ⟨b, hb, _⟩ := hg; simp at hb
+  | cons b rest ih =>
+    intro model
+    obtain ⟨b', hb', hf⟩ := hg
+    by_cases hb : nbGuard p b = true
+    · have hb'' : b' ∈ rest := by
+        rcases List.mem_cons.mp hb' with rfl | h
+        · rw [hb] at hf; exact absurd hf (by simp)
+        · exact h
+      simp [nbFitHistory, nbFitWith, hb, ih ⟨b', hb'', hf⟩]
+    · simp [nbFitHistory, nbFitWith, hb]
+
+/-- the caller's loop of mini-batch k-means is the trace from the incoming model (`None` = the
+precomputed centroids with zero counts) -/
+theorem kmFitHistory_eq_run [Transc α] (m : Metric) (tol : α) (c0 : List (List α))
+    (hist : List (List (List α))) :
+    ∀ model : Option (KState α),
+      kmFitHistory m tol c0 model hist = kmRunBy m tol (model.getD (kmFresh c0)) hist := by
+  induction hist with
+  | nil => intro model; simp [kmFitHistory, kmRunBy]
+  | cons b rest ih =>
+    intro model
+    simp [kmFitHistory, kmRunBy, kmFitWith, ih]
+
+/-- the caller's loop of FTRL ends in the step folded over the history from the incoming model
+(`None` = `Ftrl::new`: the drawn `z`, `n = 0`) -/
+theorem ftrlFitHistory_last [Transc α] (m : α) (r32 : α → α) (hp : FtrlHp α) (z0 : List α)
+    (hist : List (List (List α) × List Bool)) :
+    ∀ model : Option (FState α),
+      (ftrlFitHistory m r32 hp z0 model hist).length = hist.length ∧
+      (ftrlFitHistory m r32 hp z0 model hist).getLastD (model.getD (ftrlFresh z0)) =
+        ftrlRun m r32 hp z0.length (model.getD (ftrlFresh z0)) hist := by
+  induction hist with
+  | nil => intro model; simp [ftrlFitHistory, ftrlRun]
+  | cons b rest ih =>
+    intro model
+    obtain ⟨h1, h2⟩ := ih (some (ftrlFitWith m r32 hp z0 model b))
+    refine ⟨by simp [ftrlFitHistory, h1], ?_⟩
+    simp only [Option.getD_some] at h2
+    simp only [ftrlFitHistory, ftrlRun, List.foldl_cons] at h2 ⊢
+    rw [show ftrlStep m r32 hp z0.length (model.getD (ftrlFresh z0)) b =
+      ftrlFitWith m r32 hp z0 model b from rfl, ← h2]
+    cases ftrlFitHistory m r32 hp z0 (some (ftrlFitWith m r32 hp z0 model b)) rest with
+    | nil => rfl
+    | cons x xs => simp [List.getLastD]
+
 end Field
 end LinfaSpec.Incremental
